@@ -734,6 +734,48 @@ func okMethodSound(c *Ctx, f *ssa.Function) (bool, string) {
 	return true, "false iff some element is not Ok, examined over the whole collection"
 }
 
+// ---- SH2: the interpreter stops a command line at its first failing statement -----------------------------------------------------
+
+func ruleSH2(c *Ctx) *rule {
+	r := &rule{ID: "SH2", Engine: "E3", Floor: 1,
+		Statement: "every implementation of shell.Runner.Run that builds an mvdan.cc/sh interpreter passes interp.Params with the constant \"-e\" (or \"-o\", \"errexit\") to interp.New",
+		Necessity: "without errexit the status of a command line is that of its last statement: `cd nowhere; make` or `false; true` exit 0, so a failing command neither fails the invocation nor keeps the task out of the cache"}
+	for _, f := range c.runnerImpls() {
+		news := callsTo(f, "mvdan.cc/sh/v3/interp.New")
+		if len(news) == 0 {
+			continue // a runner that is not built on the interpreter (a test double)
+		}
+		for i, site := range news {
+			key := fmt.Sprintf("%s interp.New#%d errexit", fname(f), i+1)
+			sl := c.newSlicer()
+			sl.depth = 0
+			res := sl.run(site.Common().Args...)
+			errexit := false
+			for _, p := range res.calls["mvdan.cc/sh/v3/interp.Params"] {
+				ps := c.newSlicer()
+				ps.depth = 0
+				var consts []string
+				for _, k := range ps.run(p.Common().Args...).consts {
+					if s, ok := constString(k); ok {
+						consts = append(consts, s)
+					}
+				}
+				for _, s := range consts {
+					if s == "errexit" || (strings.HasPrefix(s, "-") && !strings.HasPrefix(s, "--") && strings.Contains(s, "e") && s != "-o") {
+						errexit = true
+					}
+				}
+			}
+			if errexit {
+				r.ok(key, c.ipos(site), "the interpreter runs with errexit")
+			} else {
+				r.bad(key, c.ipos(site), "the interpreter is created without errexit (-e): a statement that fails in the middle of a command line is ignored")
+			}
+		}
+	}
+	return r
+}
+
 func ruleST3(c *Ctx) *rule {
 	r := &rule{ID: "ST3", Engine: "E3", Floor: 5,
 		Statement: "in Runner.Run the interpreter's stdout (stderr) writer is a MultiWriter over a buffer B1 (B2) and the stream's Stdout (Stderr); Result.Stdout is B1.String(), Result.Stderr is B2.String(), B1 != B2; Result.Cmd and the executed program both come from the cmd parameter",
